@@ -253,7 +253,8 @@ func (ex *Exec) specIdent(env *Env, name string) *Value {
 				}
 			}
 		}
-		specFail("%s: no initialised range index for that loop here", name)
+		// the loop has not been entered on this path: no element visited
+		return &Value{T: types.Typ[types.Int], C: []*Term{ex.idxLit(-1)}}
 	}
 	if name == "$idx" {
 		// index of the last completed iteration of the enclosing range loop (-1 before the first)
